@@ -54,6 +54,25 @@ FAULTS = {
     "ips-without-header": [".include_ips 'bad_header.ips', 0"],
     "ips-truncated": [".include_ips 'truncated.ips', 0"],
     "undefined-macro-defined-by-other-programs": None,  # host dependent
+    # more syntax errors: a missing closing / opening delimiter, a missing separator, a missing operand
+    "missing-close-paren-data": [".db (1 + 2"],
+    "missing-close-paren-operand": ["lda.w (0x10 + 2"],
+    "missing-close-bracket": ["lda [0x10"],
+    "scope-without-brace": [".scope sc_flt", ".db 1", "}"],
+    "if-without-brace": [".if 1", ".db 1", "}"],
+    "for-without-comma": [".for i_f := 0 3 {", "}"],
+    "for-without-assign": [".for i_f 0, 3 {", "}"],
+    "macro-without-parens": [".macro m_flt3 {", "}"],
+    "assign-without-value": ["k_flt :="],
+    "equals-without-value": ["k_flt ="],
+    "data-double-comma": [".db 1,, 2"],
+    "operand-trailing-comma": ["lda 5,"],
+    "include-ips-without-delta": [".include_ips 'truncated.ips'"],
+    "splice-not-closed": ["{{p_zz"],
+    "macro-call-not-closed": ["m_undefined(1, 2"],
+    "text-without-string": [".text 5"],
+    # (not definite errors, hence not injected: a stray `else { }` right after an .if block is its else branch; a line that
+    #  starts with a binary operator continues the expression of the previous line -- newlines are plain white space)
 }
 FAULT_FILES = {"bad_header.ips": {"hex": (b"PATCX" + b"\x02\x00\x00\x00\x01a" + b"EOF").hex()},
                "truncated.ips": {"hex": (b"PATCH" + b"\x02\x00\x00\x00\x05ab").hex()}}
@@ -102,7 +121,7 @@ def strategy(tier):
 
 
 def hyp_examples(tier):
-    return 36 if tier == "quick" else 1500
+    return 24 if tier == "quick" else 1500
 
 
 def insertion_points(ir):
